@@ -565,3 +565,46 @@ def c20(ctx):
                   "fourth behaviour also builds the solver and solves FK(q) for an in-limit q; fault variants must give Err",
                   assumptions=["name decorations are the documented forms only", "a layout with c3 on joint 4 needs a2 != 0 (the "
                                "single non-zero component of joint 4 is read as -a2)"])
+
+
+# ----------------------------------------------------------------------------- C13
+@check("C13")
+def c13(ctx):
+    consts = {"Grid": 7, "MaxTry": 2, "MaxBlocked": 1} if ctx.quick else {"Grid": 8, "MaxTry": 3, "MaxBlocked": 2}
+    g = tlc(ctx, "Gen_Rrt", constants=consts, workers=8, xmx="14g")
+    lines = tlc_json_lines(g["out"], "rrt")
+    if not lines:
+        raise core.ToolError("Gen_Rrt printed nothing")
+    write_ndjson(ctx.path("rrt.ndjson"), lines)
+    opwv(ctx, ["replay", "rrt", ctx.path("rrt.ndjson"), ctx.path("rrt.out")])
+    st = replay_results(ctx, ctx.path("rrt.out"), "C13")
+    ctx.evaluations += st.get("evaluations", 0)
+    ctx.traces += st.get("groups", 0)
+    for ln in lines:
+        if ln["ok"]:
+            ctx.nontrivial.add(json.dumps([ln["start"], ln["goal"], ln["len"], ln["blocked"], ln["samples"]]))
+    opwv(ctx, ["record", "rrtplan", ctx.path("plan.trace")], timeout=3000)
+    viols, done = trace_validate(ctx, "Trace_Rrt", ctx.path("plan.trace"))
+    ev = read_ndjson(ctx.path("plan.trace"))
+    for v in viols:
+        e = ev[v["l"] - 1]
+        for clause in v["clause"]:
+            ctx.violation("%s:%s" % (clause, e["mode"]), "event #%d %s" % (v["l"], json.dumps(e)[:800]), e)
+    ctx.evaluations += len(ev)
+    ctx.extra["real_plans"] = len(ev)
+    ctx.extra["real_paths_examined"] = sum(1 for e in ev if e["outcome"] == "path")
+    ctx.extra["real_cancelled"] = sum(1 for e in ev if e["outcome"] == "err" and e.get("msg") == "Cancelled")
+    paths = [e for e in ev if e["outcome"] == "path"]
+    if paths:
+        p0 = dict(paths[0])
+        p0["nodes"] = p0["nodes"][:3]
+        ctx.sample(p0)
+    ctx.exhaustive = True
+    return finish(ctx, rule="every behaviour of the Rrt model on a 1-D grid 0..Grid (start in {1,2}, goal in {Grid-2,Grid-1}, step 1|2, "
+                  "up to MaxBlocked blocked cells, MaxTry tries, every sample sequence, cancellation never / before / while drawing "
+                  "sample k) is model checked (PathOK, CancelOK, TreesFree) and every complete behaviour is replayed into the real "
+                  "dual_rrt_connect with scripted closures: the sequence of freeness queries and the assembled path must be one the "
+                  "model allows; plus real plan_rrt runs on robots with shape judged by Trace_Rrt; non-trivial = sample scripts that "
+                  "yield a path",
+                  assumptions=["nearest-neighbour ties are nondeterministic in the model (kd-tree order)",
+                               "the real planner's thread_rng is sampled; a run with zero successful real plans is reported in the evidence"])
